@@ -9,6 +9,7 @@ import (
 	"os"
 	"path/filepath"
 	"strings"
+	"syscall"
 	"testing"
 	"unicode/utf16"
 
@@ -181,6 +182,14 @@ func checkC17(c c17Case) string {
 		// the third-party demultiplexer peeks into a *bufio.Reader where it consumes from any other reader that cannot
 		// rewind: what such readers yield is its business, not a matter of delivery
 		delete(std, "bufio.Reader")
+	}
+	if c.Seekable && c.Format != "ts" {
+		// a seekable reader handed over at the offset where the document starts (a subtitle track inside a container,
+		// say): what lies before that offset is none of the reader's business
+		prefix := []byte("RIFF....junk that precedes the document\r\n\x00\x01\x02")
+		rs := bytes.NewReader(append(append([]byte(nil), prefix...), c.Doc...))
+		_, _ = rs.Seek(int64(len(prefix)), io.SeekStart)
+		std["bytes.Reader positioned at the start of the document, after other content"] = rs
 	}
 	for name, r := range std {
 		if got := readCanon(c.Format, r, c.Opts); got != ref {
@@ -416,6 +425,56 @@ func TestC17(t *testing.T) {
 				c.Chunks = ch
 				ev.CaseH(true, mix(strHash(format), uint64(sz), 5), "buffer-boundary-split", "format-"+format)
 				verdict(t, "C17", "c17", c, checkC17)
+			}
+		}
+	})
+
+	// A named pipe read through the file-level entry point: a file whose size is not known up front, fed in pieces.
+	sub(t, "fifo", func(t *testing.T) {
+		if cfgShard != 0 {
+			return
+		}
+		dir := t.TempDir()
+		for _, format := range []string{"srt", "vtt", "ssa", "ttml", "stl"} {
+			doc := docGen(format).Example(7)
+			if g := goldenDocs(format); len(g) > 0 && len(g[0]) < 20000 {
+				doc = g[0]
+			}
+			want := readCanon(format, bytes.NewReader(doc), readOpts{})
+			p := filepath.Join(dir, "piped."+format)
+			if err := syscall.Mkfifo(p, 0o600); err != nil {
+				t.Skipf("no named pipes here: %v", err)
+			}
+			done := make(chan struct{})
+			go func() {
+				defer close(done)
+				w, err := os.OpenFile(p, os.O_WRONLY, 0)
+				if err != nil {
+					return
+				}
+				defer w.Close()
+				for i := 0; i < len(doc); i += 1 + len(doc)/3 {
+					j := i + 1 + len(doc)/3
+					if j > len(doc) {
+						j = len(doc)
+					}
+					if _, err := w.Write(doc[i:j]); err != nil {
+						return
+					}
+				}
+			}()
+			s, err := astisub.OpenFile(p)
+			got := canonResult(s, err)
+			// unblock the writer whatever happened
+			if r, err := os.OpenFile(p, os.O_RDONLY|syscall.O_NONBLOCK, 0); err == nil {
+				_, _ = io.Copy(io.Discard, r)
+				r.Close()
+			}
+			<-done
+			ev.CaseH(true, strHash("fifo"+format), "named-pipe-through-open", "format-"+format)
+			if got != want {
+				writeReplay("C17", "c17", c17Case{Format: format, Doc: doc}, "OpenFile on a named pipe differs from ReadFrom on the same bytes")
+				t.Fatalf("%s document of %d bytes read with OpenFile from a named pipe (written in three pieces) differs from the same bytes read at once\n--- at once ---\n%s\n--- pipe ---\n%s", format, len(doc), clip(want, 500), clip(got, 500))
 			}
 		}
 	})
